@@ -190,9 +190,57 @@ def result(b):
     return "MRes.unknown " + lean_str(b)
 
 
+# ---------------------------------------------------------------- Selector::is_superset / Selector::selects (generate.rs)
+
+SPATS = [(r"^Selector::All$", "SPat.all"), (r"^Selector::Some\(\w+\)$", "SPat.some"), (r"^_$", "SPat.any")]
+
+
+def sres(b):
+    if b == "true":
+        return "SRes.true"
+    if b == "false":
+        return "SRes.false"
+    if b == "set.is_superset(other_set)":
+        return "SRes.setSuperset"
+    if b == "set.contains(value)":
+        return "SRes.contains"
+    return "SRes.unknown " + lean_str(b)
+
+
+def translate_selector(src):
+    impl = fn_body(src, re.compile(r"impl Selector\s*\{"))
+    sup = fn_body(impl or "", re.compile(r"pub fn is_superset\(&self, other: &Selector\)\s*->\s*bool\s*\{"))
+    sel = fn_body(impl or "", re.compile(r"pub fn selects\(&self, value: &String\)\s*->\s*bool\s*\{"))
+    rows = None
+    if sup is not None:
+        rows = []
+        m = re.match(r"^match self \{(.*)\}$", norm(sup))
+        if not m:
+            rows.append(("SPat.unknown " + lean_str(norm(sup)[:80]), "SPat.any", "SRes.unknown " + lean_str("no outer match")))
+        else:
+            for p, b in split_arms(m.group(1)):
+                ps = classify(p, SPATS, "SPat.unknown")
+                m2 = re.match(r"^match other \{(.*)\}$", b)
+                if m2:
+                    for p2, b2 in split_arms(m2.group(1)):
+                        rows.append((ps, classify(p2, SPATS, "SPat.unknown"), sres(b2)))
+                else:
+                    rows.append((ps, "SPat.any", sres(b)))
+    srows = None
+    if sel is not None:
+        m = re.match(r"^if let Selector::Some\(set\) = self \{ (.*) \} else \{ (.*) \}$", norm(sel))
+        if m:
+            srows = [("SPat.some", sres(m.group(1))), ("SPat.any", sres(m.group(2)))]
+        else:
+            srows = [("SPat.unknown " + lean_str(norm(sel)[:120]), "SRes.unknown " + lean_str("unrecognised body"))]
+    return rows, srows
+
+
 def main():
     csrc = strip_comments(open(os.path.join(REPO, "src", "model", "context_bag.rs")).read())
     esrc = strip_comments(open(os.path.join(REPO, "src", "nested_env", "mod.rs")).read())
+    gsrc = strip_comments(open(os.path.join(REPO, "src", "generate.rs")).read())
+    suprows, selrows = translate_selector(gsrc)
     tree, lets = translate_is_allowed(csrc)
     rows = translate_merge(esrc)
     os.makedirs(os.path.dirname(OUT), exist_ok=True)
@@ -213,6 +261,18 @@ def main():
             f.write("def envKeyMergeArms : Option (List (MPat × MPat × MRes)) := none\n")
         else:
             f.write("def envKeyMergeArms : Option (List (MPat × MPat × MRes)) := some [\n" + ",\n".join(f"  ({a}, {b}, {c})" for a, b, c in rows) + "]\n")
+        f.write("\ninductive SPat where\n  | all | some | any\n  | unknown (text : String)\n  deriving Repr, DecidableEq\n\n")
+        f.write("inductive SRes where\n  | true | false | setSuperset | contains\n  | unknown (text : String)\n  deriving Repr, DecidableEq\n\n")
+        f.write("/-- `Selector::is_superset`: (pattern of self, pattern of other, result), first match wins -/\n")
+        if suprows is None:
+            f.write("def selectorSupersetArms : Option (List (SPat × SPat × SRes)) := none\n\n")
+        else:
+            f.write("def selectorSupersetArms : Option (List (SPat × SPat × SRes)) := some [\n" + ",\n".join(f"  ({a}, {b}, {c})" for a, b, c in suprows) + "]\n\n")
+        f.write("/-- `Selector::selects`: `if let Selector::Some(set) = self { .. } else { .. }` as two rows -/\n")
+        if selrows is None:
+            f.write("def selectorSelectsArms : Option (List (SPat × SRes)) := none\n")
+        else:
+            f.write("def selectorSelectsArms : Option (List (SPat × SRes)) := some [\n" + ",\n".join(f"  ({a}, {b})" for a, b in selrows) + "]\n")
         f.write("\nend Laze.Generated\n")
     return 0
 
